@@ -1696,7 +1696,16 @@ class LoopExpression(Expression):
 
     def _to_iter(self, obj: object) -> tuple[Iterator[Any], int]:
         if isinstance(obj, Mapping):
-            return iter(obj.items()), len(obj)
+            try:
+                items = list(obj.items())
+            except (KeyError, TypeError) as err:
+                # A drop that is a mapping in name only, like `forloop`, whose
+                # iterator does not produce its keys.
+                raise LiquidTypeError(
+                    f"expected an iterable at '{self.iterable}', found '{obj}'",
+                    token=self.token,
+                ) from err
+            return iter(items), len(items)
         if isinstance(obj, range):
             try:
                 return iter(obj), len(obj)
